@@ -158,6 +158,17 @@ CHECKS = {
             "ScenarioError and leave no effect.",
             "Values returned by async get_data are not judged.",
             "DESIGN.md 4/C16"),
+    "C17": ("exploration",
+            "Hypothesis-generated real-time cases on a virtual clock (loop.time, selector, perf_counter substituted): "
+            "durations, timer jitter and external set_event instants are generated; trace + log oracle; "
+            "differential rt_strict on/off",
+            "On the virtual clock: no step for t begins before rt_factor*time_resolution*(t-1); compliant runs "
+            "complete; instant simulators are never reported too slow; set_event(t) in the future => step at t, "
+            ">= until => warning and no step, non-rt => error; rt_strict only turns the first report into RuntimeError.",
+            "Virtual clock (OS jitter = generated non-negative timer latency, answers take >= 1 ns); float-noise "
+            "reports (< 1e-9 s with non-dyadic periods) are counted, not judged; open finding F19 (polling drift) "
+            "excluded by signature.",
+            "DESIGN.md 4/C17"),
 }
 
 NOT_YET = {}
